@@ -6,16 +6,13 @@ Local Open Scope N_scope.
 (* ------------------------------------------------------------------------------------------ *)
 (* print then read                                                                               *)
 (* ------------------------------------------------------------------------------------------ *)
-Lemma dom_inl c x : match x with OSym _ => False | _ => True end -> dom c true x = dom c false x.
-Proof. destruct x; intros H; try reflexivity. contradiction. Qed.
-
 Lemma print_RT c x : in_domain c x = true -> RT x (print c x).
 Proof.
   unfold in_domain. intros H. apply andb_true_iff in H as [Hc Hd]. unfold print. destruct (p_pretty c) eqn:Ep.
   - unfold pretty. destruct x as [| | | | | | |s|xs| | | |].
-    all: try (apply (pretty_RT c Hc Ep); rewrite dom_inl by exact I; exact Hd).
-    + apply (RT_atom c false (OSym s) Hc eq_refl). exact Hd.
-    + destruct xs as [|x xs]; [cbn in Hd; discriminate Hd|]. apply (pretty_RT c Hc Ep). rewrite dom_inl by exact I. exact Hd.
+    all: try (apply (pretty_RT c Hc Ep); exact Hd).
+    + apply (RT_atom c (OSym s) Hc eq_refl). exact Hd.
+    + destruct xs as [|x xs]; [cbn in Hd; discriminate Hd|]. apply (pretty_RT c Hc Ep). exact Hd.
   - apply flat_RT; assumption.
 Qed.
 
@@ -92,33 +89,23 @@ Proof. apply append_tree_seq. Qed.
 
 Definition with_layout (c : pcfg) (pretty : bool) (margin : N) : pcfg :=
   Pcfg (p_base c) (p_radix c) (p_case c) pretty margin (p_readably c) (p_escape c) (p_array c).
-Lemma sym_ok_inl c c' inl s : p_case c = p_case c' -> sym_ok c true s = true -> sym_ok c' inl s = true.
+(* the guard does not look at the layout variables: the guard of a configuration is the guard of the same
+   configuration printed flat, or pretty with any other margin *)
+Lemma atom_ok_layout c pretty margin x : atom_ok (with_layout c pretty margin) x = atom_ok c x.
+Proof. destruct x; reflexivity. Qed.
+Lemma dom_layout c pretty margin : forall x, dom c x = true -> dom (with_layout c pretty margin) x = true.
 Proof.
-  intros _. destruct s as [|b r]; [unfold sym_ok; intros H; apply andb_true_iff in H as [_ H]; discriminate H|].
-  rewrite !sym_ok_cons. intros H. apply andb_true_iff in H as [H1 H2]. rewrite H1. cbn [andb].
-  destruct (b =? 58); [exact H2|]. destruct (need_pipes (b :: r)); [|exact H2].
-  apply andb_true_iff in H2 as [_ H2]. discriminate H2.
-Qed.
-(* the guard of a pretty configuration implies the guard of the same configuration printed flat, and of
-   any other margin *)
-Lemma dom_layout c pretty margin : p_pretty c = true -> forall x inl, dom c true x = true -> dom (with_layout c pretty margin) inl x = true.
-Proof.
-  intros Hp. induction x as [x Ha|xs IH|xs tl IH IHtl|xs IH|rank rows IH] using obj_ind'; intros inl Hd.
-  - destruct x; try discriminate Ha; try exact Hd. cbn [dom atom_ok] in *. eapply sym_ok_inl; [reflexivity|exact Hd].
-  - cbn [dom] in *. rewrite dom_all in *. rewrite Hp in Hd. apply andb_true_iff in Hd as [Hne Hall]. rewrite Hne. cbn [andb].
+  induction x as [x Ha|xs IH|xs tl IH IHtl|xs IH|rank rows IH] using obj_ind'; intros Hd.
+  - destruct x; try discriminate Ha; exact Hd.
+  - cbn [dom] in *. rewrite dom_all in *. apply andb_true_iff in Hd as [Hne Hall]. rewrite Hne. cbn [andb].
     apply forallb_forall. intros y Hy. rewrite Forall_forall in IH. apply IH; [exact Hy|]. rewrite forallb_forall in Hall. apply Hall, Hy.
-  - cbn [dom] in *. rewrite dom_all in *. rewrite Hp in Hd.
+  - cbn [dom] in *. rewrite dom_all in *.
     apply andb_true_iff in Hd as [Hd Hnn]. apply andb_true_iff in Hd as [Hd Htl]. apply andb_true_iff in Hd as [Hd Hat].
-    apply andb_true_iff in Hd as [Hne Hall]. rewrite Hne, Hat, Hnn. cbn [andb].
-    assert (E1 : forallb (dom (with_layout c pretty margin) (p_pretty (with_layout c pretty margin))) xs = true).
-    { apply forallb_forall. intros y Hy. rewrite Forall_forall in IH. apply IH; [exact Hy|]. rewrite forallb_forall in Hall. apply Hall, Hy. }
-    rewrite E1. cbn [andb]. rewrite andb_true_r.
-    assert (E2 : dom (with_layout c pretty margin) (p_pretty (with_layout c pretty margin)) tl = true).
-    { apply IHtl. destruct tl; try discriminate Hat; exact Htl. }
-    destruct tl; try discriminate Hat; exact E2.
-  - cbn [dom] in *. rewrite dom_all in *. rewrite Hp in Hd. apply andb_true_iff in Hd as [Harr Hall]. cbn [with_layout p_array]. rewrite Harr. cbn [andb].
+    apply andb_true_iff in Hd as [Hne Hall]. rewrite Hne, Hat, Hnn, atom_ok_layout, Htl. cbn [andb].
+    rewrite !andb_true_r. apply forallb_forall. intros y Hy. rewrite Forall_forall in IH. apply IH; [exact Hy|]. rewrite forallb_forall in Hall. apply Hall, Hy.
+  - cbn [dom] in *. rewrite dom_all in *. apply andb_true_iff in Hd as [Harr Hall]. cbn [with_layout p_array]. rewrite Harr. cbn [andb].
     apply forallb_forall. intros y Hy. rewrite Forall_forall in IH. apply IH; [exact Hy|]. rewrite forallb_forall in Hall. apply Hall, Hy.
-  - cbn [dom] in *. rewrite dom_all in *. rewrite Hp in Hd. apply andb_true_iff in Hd as [Hd Hall].
+  - cbn [dom] in *. rewrite dom_all in *. apply andb_true_iff in Hd as [Hd Hall].
     cbn [with_layout p_array p_base p_radix]. rewrite Hd. cbn [andb].
     apply forallb_forall. intros y Hy. rewrite Forall_forall in IH. apply IH; [exact Hy|]. rewrite forallb_forall in Hall. apply Hall, Hy.
 Qed.
@@ -127,11 +114,9 @@ Theorem pretty_and_flat_read_alike c x pretty margin : p_pretty c = true -> in_d
   roundtrip_ok x (read_all (print c x)) = true /\
   roundtrip_ok x (read_all (print (with_layout c pretty margin) x)) = true.
 Proof.
-  intros Hp H. split; [apply read_print_ok, H|]. apply read_print_ok.
+  intros _ H. split; [apply read_print_ok, H|]. apply read_print_ok.
   unfold in_domain in *. apply andb_true_iff in H as [Hc Hd]. apply andb_true_iff. split; [exact Hc|].
-  destruct x as [| | | | | | |s| | | | |].
-  8: exact Hd.   (* a symbol at top level: no list around it, the layout plays no part (sym_ok does not look at c) *)
-  all: apply dom_layout; [exact Hp|]; rewrite dom_inl by exact I; exact Hd.
+  apply dom_layout. exact Hd.
 Qed.
 
 (* ------------------------------------------------------------------------------------------ *)
@@ -152,8 +137,6 @@ Definition w_integral_double := (cfg_flat, OFlt FDouble [49]).
 Definition w_ratio_radix := (Pcfg 2 true CDown false 80 true true true, ORat 3 4).
 (* a 2x2 array with *print-radix*: the rank is printed as an integer, #2.A((1. 2.) (3. 4.)) *)
 Definition w_array_radix := (Pcfg 10 true CDown false 80 true true true, OArr 2 [OList [fx 1; fx 2]; OList [fx 3; fx 4]]).
-(* (|a b| c) with *print-pretty* t: createTree writes symbols without bars *)
-Definition w_pretty_bars := (cfg_pretty, OList [OSym [97; 32; 98]; OSym [99]]).
 (* a? : needPipeMap does not ask for bars, the reader rejects '?' *)
 Definition w_symbol_question := (cfg_flat, OSym [97; 63]).
 (* é (UTF-8 c3 a9): no bars, and the reader rejects bytes above 0x7f outside bars *)
@@ -171,22 +154,22 @@ Definition w_symbol_dot := (cfg_flat, OList [OSym [97]; OSym [46]; OSym [98]]).
 Definition w_keyword_space := (cfg_flat, OSym [58; 97; 32; 98]).
 
 Definition refutation_witnesses : list (pcfg * obj) :=
-  [w_string_quote; w_single_float; w_integral_double; w_ratio_radix; w_array_radix; w_pretty_bars; w_symbol_question;
+  [w_string_quote; w_single_float; w_integral_double; w_ratio_radix; w_array_radix; w_symbol_question;
    w_symbol_non_ascii; w_symbol_bar; w_symbol_nil; w_char_paren; w_char_nul; w_symbol_dot; w_keyword_space].
 Theorem outside_guard_refuted : forallb (fun w => refuted (fst w) (snd w)) refutation_witnesses = true.
 Proof. vm_compute. reflexivity. Qed.
 (* what the model makes of some of them *)
-Example pretty_bars_reads_three : model_read (model_text (fst w_pretty_bars) (snd w_pretty_bars)) = Some [OList [OSym [97]; OSym [98]; OSym [99]]].
+(* repaired (C03-4): (|a b| c) keeps its bars under *print-pretty* t *)
+Example pretty_keeps_bars : model_text cfg_pretty (OList [OSym [97; 32; 98]; OSym [99]]) = Some [40; 124; 97; 32; 98; 124; 32; 99; 41].
 Proof. vm_compute. reflexivity. Qed.
 Example integral_double_reads_fixnum : model_read (model_text (fst w_integral_double) (snd w_integral_double)) = Some [OInt false 1].
 Proof. vm_compute. reflexivity. Qed.
 Example array_radix_text : model_text (fst w_array_radix) (snd w_array_radix) =
   Some [35; 50; 46; 65; 40; 40; 49; 46; 32; 50; 46; 41; 32; 40; 51; 46; 32; 52; 46; 41; 41].
 Proof. vm_compute. reflexivity. Qed.
-(* repaired (C03-2): (||) under :capitalize no longer faults; it is printed (()) like under the other cases,
-   which is the dropped-bars finding *)
+(* repaired (C03-2, C03-4): (||) under :capitalize neither faults nor loses its bars *)
 Example empty_symbol_capitalize_prints :
-  model_text (Pcfg 10 false CCap true 80 true true true) (OList [OSym []]) = Some [40; 40; 41; 41].
+  model_text (Pcfg 10 false CCap true 80 true true true) (OList [OSym []]) = Some [40; 124; 124; 41].
 Proof. vm_compute. reflexivity. Qed.
 
 (* ------------------------------------------------------------------------------------------ *)
